@@ -2,6 +2,8 @@
 printed text; fallback and chain wiring; the single trailer and its agreement with the JS reader;
 removal of the superseded comment through the comment map.  Not decided: numerical exactness of the
 composition (sourcemap crate)."""
+import re
+
 from .. import hir, gate, fmtargs, jsast
 from ..engine import AnchorMissing
 from ..prov import Prov, origin_str, return_exprs
@@ -120,6 +122,20 @@ def rule_fallback(check):
     # the composition runs exactly under: chaining configured, original map present, rewrite map parsed -
     # whether written with bool::then / and_then closures, `?`, or guard clauses
     sites = [n for n in hir.calls_in(cs.body, name="add_raw")]
+    if not sites:
+        # the emission sits in a helper / builder method: the conditions are those of the call leading to it
+        for g in prog.flat(cs, 3):
+            if g is cs or not any(True for _ in hir.calls_in(g.body, name="add_raw")):
+                continue
+            cur = g
+            for _ in range(4):
+                up = [(cf, c) for cf, c in prog.sites_calling(cur) if hir.is_call(c)]
+                if len(up) != 1:
+                    break
+                if up[0][0] is cs:
+                    sites.append(up[0][1])
+                    break
+                cur = up[0][0]
     check.floor(R, "add_raw sites in chain_source_maps", len(sites), 1)
     for n in sites:
         gates_ = set()
@@ -151,66 +167,104 @@ def rule_fallback(check):
         check.expect(all(r[0] == "param" and r[2] == 0 for r, p in os_), R, R + "/parses-rewrite-map", hir.loc(n), "the rewrite map (param source_map) is parsed", "chain_source_maps parses %s" % sorted(origin_str(o) for o in os_))
 
 
+def _root_calls(prog, pv, f, e):
+    """names of the calls the value of e ultimately comes from (parameters of helpers followed to their call sites)"""
+    from ..xformrules import deep_origins
+
+    out = set()
+    for r, p in deep_origins(prog, pv, f, e):
+        if r[0] == "call":
+            out.add(r[1].split("::")[-1])
+        elif r[0] == "ctor" and r[1].split("::")[-1] == "None":
+            out.add("None")
+        else:
+            out.add(origin_str((r, p)))
+    return out
+
+
 def rule_chain(check):
     R = "CHAIN-WIRING"
-    check.rule(R, "each token of the rewrite map is looked up in the original map at its *source* position and re-emitted at its *generated* position with the original token's source position, source and name")
+    check.rule(R, "each token of the rewrite map is looked up in the original map at its *source* position and re-emitted at its *generated* position with the original token's source position, source and name (wherever the composition is written: chain_source_maps itself or the helpers / builder methods it calls)")
     prog = check.prog
     cs = prog.fn("rewriter::chain_source_maps")
-    adds = [n for n in hir.calls_in(cs.body, name="add_raw")]
+    pv = Prov(prog)
+    flat = prog.flat(cs, 3)
+    adds = [(g, n) for g in flat for n in hir.calls_in(g.body, name="add_raw")]
     check.floor(R, "add_raw sites", len(adds), 1)
-    for n in adds:
+
+    def getter_root(g, x):
+        """(getter name, where its receiver comes from) for `<recv>.get_xxx()`"""
+        x = hir.peel(x)
+        if x.get("k") != "MethodCall":
+            return ("?", frozenset())
+        return (x.get("method"), frozenset(_root_calls(prog, pv, g, x["recv"])))
+
+    lk = [(g, x) for g in flat for x in hir.calls_in(g.body, name="lookup_token")]
+    for g, n in adds:
         a = hir.call_args(n)[1:]
-        got = []
-        for x in a[:4]:
-            x = hir.peel(x)
-            got.append((x.get("method"), hir.local_of(x["recv"])[1] if x.get("k") == "MethodCall" and hir.local_of(x["recv"]) else "?"))
-        # which locals: the loop variable over tokens() and the Some-binding of lookup_token
-        tok = got[0][1]
-        orig = got[2][1]
-        want = [("get_dst_line", tok), ("get_dst_col", tok), ("get_src_line", orig), ("get_src_col", orig)]
-        check.expect(got == want and tok != orig, R, R + "/positions", hir.loc(n), "add_raw(token.dst_line, token.dst_col, original.src_line, original.src_col, ..)", "add_raw is fed %s" % got)
-        lk = [x for x in hir.calls_in(cs.body, name="lookup_token")]
+        got = [getter_root(g, x) for x in a[:4]]
+        tok_ok = [m for m, _ in got] == ["get_dst_line", "get_dst_col", "get_src_line", "get_src_col"]
+        from_tokens = all(r and all(c in ("tokens", "next", "into_iter") for c in r) and "tokens" in r for _, r in got[:2])
+        from_lookup = all(r == frozenset({"lookup_token"}) for _, r in got[2:4])
+        check.expect(tok_ok and from_tokens and from_lookup, R, R + "/positions", hir.loc(n), "add_raw(token.dst_line, token.dst_col, original.src_line, original.src_col, ..)", "add_raw is fed %s" % [(m, sorted(r)) for m, r in got])
         ok = False
-        for l in lk:
+        for lg, l in lk:
             la = hir.call_args(l)
-            p = [hir.peel(z) for z in la[1:3]]
-            names = [(z.get("method"), hir.local_of(z["recv"])[1] if z.get("k") == "MethodCall" and hir.local_of(z["recv"]) else "?") for z in p]
-            recv_o = hir.local_of(la[0])
-            ok = names == [("get_src_line", tok), ("get_src_col", tok)] and bool(recv_o)
-        check.expect(ok, R, R + "/lookup", hir.loc(n), "original = original_source.lookup_token(token.src_line, token.src_col)", "lookup_token is not fed the rewrite token's source position")
-        pv = Prov(prog)
-        for i, getter in ((4, "get_source"), (5, "get_name")):
-            os_ = pv.origins(cs, a[i])
-            calls = set()
-            for r, p in os_:
-                if r[0] == "call":
-                    calls.add(r[1].split("::")[-1])
-                elif r[0] == "ctor" and r[1].split("::")[-1] == "None":
-                    calls.add("None")
-                else:
-                    calls.add(origin_str((r, p)))
-            adder = "add_source" if i == 4 else "add_name"
-            uses = [x for x in hir.calls_in(cs.body, name=adder)]
-            src_ok = all(hir.local_of(hir.call_args(x)[1]) and _init_is_getter(cs, hir.local_of(hir.call_args(x)[1])[0], getter, orig) for x in uses) and bool(uses)
-            check.expect(src_ok, R, "%s/%s" % (R, getter), hir.loc(n), "%s index built from original.%s()" % (adder, getter), "%s index is not built from the original token's %s()" % (adder, getter))
+            names = [getter_root(lg, z) for z in la[1:3]]
+            ok = [m for m, _ in names] == ["get_src_line", "get_src_col"] and all("tokens" in r and all(c in ("tokens", "next", "into_iter") for c in r) for _, r in names)
+            # the map that is searched is the original one (a parameter of chain_source_maps), not the rewrite map
+            ro = _root_calls(prog, pv, lg, la[0])
+            ok = ok and not any(c in ("parse_source_map", "tokens") for c in ro)
+        check.expect(ok and bool(lk), R, R + "/lookup", hir.loc(n), "original = original_source.lookup_token(token.src_line, token.src_col)", "lookup_token is not fed the rewrite token's source position")
+        for i, getter, adder in ((4, "get_source", "add_source"), (5, "get_name", "add_name")):
+            uses = [(ug, x) for ug in flat for x in hir.calls_in(ug.body, name=adder)]
+            src_ok = bool(uses)
+            for ug, x in uses:
+                # the value added comes from the looked-up token's getter: directly, through a local, or
+                # through a memoising helper that hands its key to the adding callback
+                roots = _root_calls(prog, pv, ug, hir.call_args(x)[1])
+                direct = getter in roots
+                if not direct:
+                    # callback parameter: the key handed to the helper that calls the callback
+                    fn_getters = {m.get("method") for fg in flat for m in fg.nodes() if m.get("k") == "MethodCall" and m.get("method") == getter and "lookup_token" in _root_calls(prog, pv, fg, m["recv"])}
+                    direct = bool(fn_getters) and all(str(r).startswith(("closure_param", "param")) or r in ("unwrap",) for r in roots)
+                src_ok = src_ok and direct
+            idx_roots = _root_calls(prog, pv, g, a[i])
+            check.expect(src_ok, R, "%s/%s" % (R, getter), hir.loc(n), "%s index built from original.%s()" % (adder, getter), "%s index is not built from the original token's %s() (%s)" % (adder, getter, sorted(idx_roots)))
         # closed set of effects on the builder: sources already carry the original map's sourceRoot
         # (sourcemap::Token::get_source), so e.g. set_source_root would apply it twice
-        bl = hir.local_of(hir.call_args(n)[0])
         used = {}
-        for x in cs.nodes():
-            if x.get("k") == "MethodCall" and hir.local_of(x["recv"]) == bl:
-                used.setdefault(x["method"], x)
+        for ug in flat:
+            for x in ug.nodes():
+                if x.get("k") == "MethodCall" and re.sub(r"^&(mut )?", "", hir.peel(x["recv"]).get("ty") or "").split("<")[0].endswith("::SourceMapBuilder"):
+                    used.setdefault(x["method"], x)
         allowed = {"add_raw", "add_source", "add_name", "into_sourcemap"}
         for m, x in sorted(used.items()):
             check.expect(m in allowed, R, "%s/builder-effect/%s" % (R, m), hir.loc(x), "builder.%s (reviewed)" % m, "unreviewed effect builder.%s() on the chained map: the composition is defined by add_source/add_name/add_raw only (sources returned by the original token already include its sourceRoot)" % m)
-        ctor = cs.bindings()[bl[0]]["origin"][1] if bl else None
-        ok_new = ctor is not None and hir.is_call(hir.peel(ctor)) and hir.callee_name(hir.peel(ctor)) == "new" and (hir.peel(hir.call_args(hir.peel(ctor))[0]).get("res", {}).get("ctor_path") or "").split("::")[-1] == "None"
+        news = [(ug, x) for ug in flat for x in hir.calls_in(ug.body, name="new") if prog.resolve_local(x) is None and "SourceMapBuilder" in ((x.get("callee") or {}).get("path") or "") + ((x.get("callee") or {}).get("resolved") or "") and hir.call_args(x)]
+        ok_new = len(news) >= 1 and all((hir.peel(hir.call_args(x)[0]).get("res", {}).get("ctor_path") or "").split("::")[-1] == "None" for _, x in news)
         check.expect(ok_new, R, R + "/builder-new", hir.loc(n), "SourceMapBuilder::new(None)", "the chained map builder is not created with SourceMapBuilder::new(None)")
-        # every token of the rewrite map that resolves in the original map is re-emitted: inside the
-        # token loop, add_raw is conditional on nothing but `lookup_token(..)` being Some
+    # every token of the rewrite map that resolves in the original map is re-emitted: inside the token
+    # loop the emission (add_raw itself, or the call that leads to it) is conditional on nothing but
+    # `lookup_token(..)` being Some
+    emit = []
+    for g, n in adds:
+        cur_f, cur_n = g, n
+        hops = 0
+        while cur_f is not cs and hops < 4:
+            sites = [(cf, c) for cf, c in prog.sites_calling(cur_f) if hir.is_call(c) and any(cf is x for x in flat)]
+            if len(sites) != 1:
+                break
+            extra = [c for c in cur_f.conds_at(cur_n) if c["t"] not in ("closure",)]
+            if extra:
+                check.bad(R, R + "/every-token", hir.loc(cur_n), "some resolvable tokens of the rewrite map are not re-emitted: add_raw is additionally conditional on %s" % [hir.cond_str(c) for c in extra])
+            cur_f, cur_n = sites[0]
+            hops += 1
+        emit.append((cur_f, cur_n))
+    for g, n in emit:
         inner = []
         seen_loop = False
-        for c in cs.conds_at(n):
+        for c in g.conds_at(n):
             if c["t"] == "loop":
                 seen_loop = True
                 continue
@@ -218,7 +272,7 @@ def rule_chain(check):
                 continue
             if c["t"] == "pat":
                 v = str(hir.pat_variant(c["pat"])).split("::")[-1]
-                so = pv.origins(cs, c["scrut"]) if c.get("scrut") else set()
+                so = pv.origins(g, c["scrut"]) if c.get("scrut") else set()
                 from_lookup = any(r[0] == "call" and r[1].split("::")[-1] == "lookup_token" for r, p in so)
                 iter_next = any(r[0] == "call" and r[1].split("::")[-1] in ("next", "into_iter") for r, p in so) or "Iterator::next" in hir.describe(c["scrut"])
                 if iter_next:
@@ -227,7 +281,7 @@ def rule_chain(check):
             else:
                 inner.append(hir.cond_str(c))
         check.expect(seen_loop and inner == ["lookup-some"], R, R + "/every-token", hir.loc(n), "inside the loop add_raw depends only on lookup_token(..) being Some", "some resolvable tokens of the rewrite map are not re-emitted: add_raw is additionally conditional on %s" % [x for x in inner if x != "lookup-some"])
-        tk = [x for x in hir.calls_in(cs.body, name="tokens")]
+        tk = [x for fg in flat for x in hir.calls_in(fg.body, name="tokens")]
         check.expect(len(tk) == 1, R, R + "/all-tokens", hir.loc(n), "iterates all tokens of the rewrite map", "does not iterate tokens() of the rewrite map")
 
 
